@@ -192,6 +192,14 @@ impl Expression {
                 // Todo: Modifiers on object type template parameters
                 let (array_ty_nomod, modifer) = module.type_registry.extract_modifier(array_ty.0);
                 let array_tyl_nomod = module.type_registry.get_type_layer(array_ty_nomod);
+                // An element of an array, vector or matrix value can only be written to if the value itself can
+                // Objects refer to their contents so their elements do not depend on the object expression
+                let value_type = match array_tyl_nomod {
+                    TypeLayer::Array(_, _) | TypeLayer::Vector(_, _) | TypeLayer::Matrix(_, _, _) => {
+                        array_ty.1
+                    }
+                    _ => ValueType::Lvalue,
+                };
                 let ty = match array_tyl_nomod {
                     TypeLayer::Array(element, _) => {
                         // Elements of a const array object are const
@@ -235,7 +243,7 @@ impl Expression {
                     }
                     _ => return Err(EvaluateTypeError::InvalidModule),
                 };
-                Ok(ty.to_lvalue())
+                Ok(ExpressionType(ty, value_type))
             }
             Expression::StructMember(ref expr, id, member_index) => {
                 let expr_type = expr.get_type(module)?;
